@@ -277,7 +277,13 @@ CLAIMS = {
              'TaintedString semantics modelled; laws of str.upper/lower/capitalize and urllib are hypotheses. '
              'Partial: quote-then-unquote (finding C04-requote), newline_to_br/multi-line <br /> (oracle only), '
              'unwrapped method formats (finding C04-method-format)',
-        technique='Lean 4 proof (stage invariants Safe / Marked over any modifier list) + correspondence',
+        technique='Lean 4 proof (stage invariants Safe / Marked over any modifier list) + correspondence; the taint '
+                  'bookkeeping of DT_Var (_retaint, the fmt= chain, the C-style format stage, the html_quote guard of the '
+                  'modifier loop, the final quoting) is translated from the source on every run (harness/trans_taint.py -> '
+                  'GenTaint.lean) and proved equal to the stage functions of the model: gen_retaint_is_model, '
+                  'gen_final_quote_is_model, gen_finish_is_model, gen_cfmt_is_spec, gen_cfmt_is_model, '
+                  'gen_cfmt_safe_any_code, gen_mod_step_is_spec, gen_mod_step_is_model, gen_mod_loop_is_model, '
+                  'gen_fmt_is_spec, gen_fmt_is_model',
         ref='DESIGN.md §5 C04'),
     'C15': dict(
         text='Lean 4 theorems about the dtml-var pipeline model: gen_modifiers / gen_sql_tables / '
